@@ -7,7 +7,7 @@ claimed = {
          "deterministic simulation: seeded history/configuration search vs map reference model"),
 }
 claimed.update({
- "C03": ("fault_enumeration", "Every mutating file operation of a generated history (flush, index GC, primary GC, freelist hand-over, Close, Open, reopen) is a crash point, plus every sampled byte-prefix of each appended write and nested crashes during recovery; each image is booted in a fresh simulated process: open must succeed, every key must read as its last-flushed or a later acknowledged/in-flight state with Get/Has/GetSize agreeing, and the recovered store is driven on through ops, flush, fsck, two GC cycles of each kind and a reopen. Quick samples <=24 images per history, thorough enumerates all crash points of each history.", "4/C03",
+ "C03": ("fault_enumeration", "Every mutating file operation of a generated history (flush, index GC, primary GC, freelist hand-over, Close, Open, reopen) is a crash point, plus every sampled byte-prefix of each appended write and nested crashes during recovery; each image is booted in a fresh simulated process: open must succeed, every key must read as its last-flushed or a later acknowledged/in-flight state with Get/Has/GetSize agreeing, and the recovered store is driven on through ops, flush, fsck, two GC cycles of each kind and a reopen. Quick samples <=24 images per history and triages every other crash image with the independent fsck (booting what looks wrong); thorough enumerates all crash points of each history. 40% of multihash histories run the store's own flusher and collectors on short simulated intervals during the forward run (random scheduler with preemption, site-directed stalls or per-operation jitter), so crash points land inside background commits and GC cycles.", "4/C03",
          "Process-crash model only (written data survives); file-operation granularity; histories sampled. Trusts transform, simos fidelity and the admissibility oracle.",
          "deterministic simulation with crash-point / torn-write fault enumeration vs recovery-admissibility oracle"),
  "C04": ("exploration", "Seeded histories with index-GC and primary-GC cycles interleaved at arbitrary positions (unflushed data, scan-free on/off, low-use thresholds 0..101, cycles interrupted after n context checks and resumed) with the map model checked on every later call, iteration and reopen; panics are violations.", "4/C04",
@@ -47,11 +47,11 @@ claimed.update({
  "C10": ("fault_enumeration", "Legacy version-2 index / unversioned primary / legacy freelist files are written by the harness from a generated model (dead records deleted-marked, pending on the freelist or both; stale record lists; entries past the end of the primary) and upgraded by the real OpenStore with chunk sizes from one record per chunk to a single chunk and equal or different index bits; contents must equal the model, fsck clean, second open identical; every mutating op of the upgrading open is a crash point (torn appends, nested crash) and the open that finally completes must show the model. Two known findings (KF-2 remap marker order, KF-3 translate swap) are reported and steered around.", "4/C10",
          "Process-crash model; past-the-end entries are a crash-free class; known-finding windows excluded while their witnesses fail.",
          "deterministic simulation with crash-point enumeration over the upgrading open + harness-written legacy formats"),
- "C11": ("exploration", "Histories that end with chosen non-current primary files holding no live data (or below a low-use threshold), then bounded rounds of (GC cycle, Flush): every targeted file must be zero-length or unlinked, the oldest unlinked with the header advanced, unreferenced index files emptied, GC errors are violations, StorageSize never grows in non-relocating cycles, primary growth bounded by relocated bytes, and repeated rounds reach and keep a fixed point.", "4/C11",
+ "C11": ("exploration", "Histories that end with chosen non-current primary files holding no live data (or below a low-use threshold), then bounded rounds of (GC cycle, Flush): every targeted file must be zero-length or unlinked, the oldest unlinked with the header advanced, unreferenced index files emptied, GC errors are violations, StorageSize never grows in non-relocating cycles, primary growth bounded by relocated bytes, and repeated rounds reach and keep a fixed point. A background class leaves the reopened store idle with its own collectors and flusher: the same files must be released within a bounded number of GC intervals of simulated time and the files must then stop changing.", "4/C11",
          "Bounds are generous finite constants; visited set starts empty.",
          "deterministic simulation: bounded-progress, conservation and fixed-point checks over GC rounds"),
- "C13": ("exploration", "Freelist ledger: expected multiset of superseded locations (from Index.Get before/after every call and GC cycle) must equal freelist file + every batch captured at the hand-over rename, nothing twice, no current location recorded; sequential histories with relocation, interrupted cycles and clean restarts, and concurrent disjoint-key writers + flusher + GC hand-over hammering.", "4/C13",
-         "Clean restarts only; concurrent class uses disjoint key sets and relocation disabled so the expected multiset is defined.",
+ "C13": ("exploration", "Freelist ledger: expected multiset of superseded locations (from Index.Get before/after every call and GC cycle) must equal freelist file + every batch captured at the hand-over rename, nothing twice, no current location recorded; sequential histories with relocation, interrupted cycles and clean restarts, and concurrent disjoint-key writers + flusher + GC hand-over hammering; with a relocating GC under the writers the structural form is checked (nothing recorded twice, no current location recorded, every intact unreferenced primary record is recorded).", "4/C13",
+         "Clean restarts only; concurrent class uses disjoint key sets; the exact multiset comparison needs relocation disabled (60% of concurrent cases), the other 40% use the structural check.",
          "deterministic simulation: conservation ledger over freelist file and captured hand-over batches"),
  "C14": ("exploration", "1-3 tasks drive a bare FileCache over the simulated disk with Open/Close/use/Remove/Clear/SetCacheSize(0..3)/Len over 1-3 names; invariants from the cache's white-box state and the disk's handle ledger: lent handles open and readable, open handles cached or lent, refs equal references lent out, no double close, no use after close, descriptors <= capacity + lent.", "4/C14",
          "Seeded sampling of sequences (<= 26 ops), not exhaustive.",
